@@ -23,6 +23,8 @@ SerialClass Serial;
 TwoWire Wire;
 int Servo::next = 0;
 int MockLcdBase::next = 0;
+static void dump_lcds() { for (auto *l : MockLcdBase::all()) l->dump("marker"); }
+namespace mock { void (*on_marker)() = dump_lcds; }
 
 void pinMode(int pin, int mode) { mock::ev("pm %d %d", pin, mode); }
 void digitalWrite(int pin, int v) { mock::ev("dw %d %d", pin, v ? 1 : 0); }
